@@ -337,6 +337,87 @@ def _maybe_long_token(rng, ir, tags, p_doc=0.06, p_param=0.04):
     return hit
 
 
+# ------------------------------------------------------------------ strata: a default of any member type under a Union;
+#                                                                     back-tick quoted literal displays with mixed elements
+PLAIN_WORDS = ["mnist", "adam", "auto", "relu", "v1", "x", "cat", "dog", "sgd", "5", "a-b"]
+
+
+def scalar_value_of(rng, t):
+    """a plain value of the scalar type named t ('none' gives None)"""
+    if t == "none":
+        return None
+    if t == "str":
+        return rng.choice(PLAIN_WORDS)
+    if t == "int":
+        return G.int_value(rng)
+    if t == "bool":
+        return rng.choice([True, False])
+    v = G.float_value(rng)
+    while v in (float("inf"), float("-inf")) or v != v:
+        v = G.float_value(rng)
+    return v
+
+
+def union_default_param(rng, tags):
+    """Union[..] / Optional[Union[..]] over two or three scalar types in any order, with an explicit default of the type of
+    one of the members - the first, a middle one or the last, each as often as the others"""
+    members = rng.sample(G.SCALAR_TYPES, rng.choice([2, 2, 3]))
+    typ = "Union[%s]" % ", ".join(members)
+    if rng.random() < 0.4:
+        typ = "Optional[%s]" % typ
+    which = rng.randrange(len(members))
+    tags.append("stratum:union-default:%s-member" % ("last" if which == len(members) - 1 else "earlier"))
+    return {"doc": G.clean_prose(rng), "typ": typ, "default": scalar_value_of(rng, members[which])}
+
+
+def _typ_of_elems(kinds):
+    names = []
+    for k in kinds:
+        if k != "none" and k not in names:
+            names.append(k)
+    t = names[0] if len(names) == 1 else "Union[%s]" % ", ".join(names) if names else "str"
+    return "Optional[%s]" % t if "none" in kinds else t
+
+
+def literal_display_param(rng, tags):
+    """an explicit default that is a back-tick quoted list / tuple / dict display of two or more elements - all of one scalar
+    type or mixed (str, int, float, bool, None) - under a declared type that admits it"""
+    n = rng.choice([2, 2, 3, 4])
+    shape = rng.choice(["tuple", "tuple", "list", "list", "dict"])
+    if rng.random() < 0.35:
+        kinds = [rng.choice(G.SCALAR_TYPES)] * n
+    else:
+        kinds = [rng.choice(["str", "str", "int", "float", "bool", "bool", "none"]) for _ in range(n)]
+    vals = [scalar_value_of(rng, k) for k in kinds]
+    if shape == "tuple":
+        text = "(%s)" % ", ".join(repr(v) for v in vals)
+        typ = "Tuple[%s]" % ", ".join(_typ_of_elems([k]) if k != "none" else "Optional[int]" for k in kinds)
+    elif shape == "list":
+        text = "[%s]" % ", ".join(repr(v) for v in vals)
+        typ = "List[%s]" % _typ_of_elems(kinds)
+    else:
+        keys = rng.sample(["a", "b", "key", "lr", "name"], n)
+        text = "{%s}" % ", ".join("%r: %r" % (k, v) for k, v in zip(keys, vals))
+        typ = rng.choice(["dict", "Dict[str, %s]" % _typ_of_elems(kinds)])
+    if rng.random() < 0.4:
+        typ = "Optional[%s]" % typ
+    tags.append("stratum:literal-display-default:%s:%s" % (shape, "same" if len(set(kinds)) == 1 else "mixed"))
+    return {"doc": G.clean_prose(rng), "typ": typ, "default": "```%s```" % text}
+
+
+def add_param(rng, ir, p):
+    """put the parameter p under a fresh name at a random position of ir['params']"""
+    name = G.ident(rng)
+    while name in ir["params"]:
+        name = G.ident(rng)
+    items = list(ir["params"].items())
+    kw = [kv for kv in items if kv[0].endswith("kwargs")]
+    items = [kv for kv in items if not kv[0].endswith("kwargs")]
+    items.insert(rng.randrange(len(items) + 1), (name, p))
+    ir["params"] = OrderedDict(items + kw)
+    return name
+
+
 def gen_ir_spec(rng, tags, stream):
     clean = stream == "clean"
     ir, t = gen_ir.gen_ir(rng, clean=clean)
